@@ -289,6 +289,65 @@ func scTakeover(x *vs.Exec) {
 	}
 }
 
+// nearnames: names that differ only by surrounding blanks or letter case. Whether the server treats them as one name or
+// as two is its choice; either way the rules hold for each name as the sessions sent it: a close request or the end of a
+// session touches only that session's proxies, a live name stays unique, and a client's own earlier registration never
+// blocks its new one.
+func scNearNames(nameA string) func(x *vs.Exec) {
+	return func(x *vs.Exec) {
+		defer sw.Guard()
+		w := newWorld(x)
+		a, b, c := w.MustLogin("a", sw.LoginOpt{}), w.MustLogin("b", sw.LoginOpt{}), w.MustLogin("c", sw.LoginOpt{})
+		if r := a.Reg(tcp(nameA, 20000)); r != "ok:20000" {
+			vs.Fail("setup: registration of %q: %s", nameA, r)
+			return
+		}
+		rb := b.Reg(tcp("n", 20001))
+		w.Quiesce()
+		bLive := strings.HasPrefix(rb, "ok")
+		vs.Observe("a=%q ok, b=\"n\" %s", nameA, rb)
+		w.NameConsistency("after registering near names")
+		check := func(when string, tag string) {
+			if !bLive {
+				return
+			}
+			serves(w, 20001, "b/n", tag)
+			if r := c.Reg(tcp("n", 20002)); strings.HasPrefix(r, "ok") {
+				vs.Fail("%s: a third session registered proxy name \"n\" (%s) while session b's proxy \"n\" is live", when, r)
+				c.CloseProxy("n")
+				w.Quiesce()
+			}
+			if w.H.TCPListenerOn(20002) != nil {
+				vs.Fail("%s: the refused registration left port 20002 bound", when)
+			}
+		}
+		check("with both registered", "1")
+		vs.SetInterest(true)
+		a.CloseProxy(nameA)
+		w.Quiesce()
+		vs.SetInterest(false)
+		check(fmt.Sprintf("after session a closed its proxy %q", nameA), "2")
+		if r := a.Reg(tcp(nameA, 20000)); r != "ok:20000" {
+			vs.Fail("session a closed its proxy %q and registers it again: %s", nameA, r)
+		}
+		w.Quiesce()
+		check(fmt.Sprintf("after session a registered %q again", nameA), "3")
+		a.Cut()
+		w.Quiesce()
+		check("after session a ended", "4")
+		a2 := w.MustLogin("a", sw.LoginOpt{})
+		if r := a2.Reg(tcp(nameA, 20000)); r != "ok:20000" {
+			vs.Fail("a new session of the same client registers %q after the old session ended: %s", nameA, r)
+		}
+		w.Quiesce()
+		w.NameConsistency("at the end")
+		w.Teardown()
+		if d := w.Dump(); d != w.Base {
+			vs.Fail("state after teardown differs from initial:\n%s", d)
+		}
+	}
+}
+
 var hex16 = regexp.MustCompile(`^[0-9a-f]{16}$`)
 
 // fresh: logins without run id get new distinct ids.
@@ -341,20 +400,25 @@ func scenarios() {
 	mk("relogin1-slowhook", scRelogin(1, true, true))
 	mk("takeover", scTakeover)
 	mk("fresh", scFresh)
+	for k, n := range nearNames {
+		mk("nearnames-"+k, scNearNames(n))
+	}
 }
+
+var nearNames = map[string]string{"trailing": "n ", "leading": " n", "upper": "N", "tab": "n\t"}
 
 func main() {
 	c := drv.Setup("C12", "e1", "model_checking", scenarios)
 	if c == nil {
 		return
 	}
-	c.Rule("E1: real frps on the virtual network, scripted clients; every schedule with at most B deviations of: duplicate-name registration from two sessions (tcp, and the secret kinds stcp / sudp / xtcp with a visitor probing the winner afterwards), re-login with the same run id (once, while the old session is registering, twice at once), session end racing with a take-over registration, concurrent fresh logins; non-trivial = distinct end state / observation trace")
+	c.Rule("E1: real frps on the virtual network, scripted clients; every schedule with at most B deviations of: duplicate-name registration from two sessions (tcp, and the secret kinds stcp / sudp / xtcp with a visitor probing the winner afterwards), re-login with the same run id (once, while the old session is registering, twice at once), session end racing with a take-over registration, concurrent fresh logins; proxy names that differ only by surrounding blanks or letter case held by different sessions (close, re-register, session end, new session: each touches its own name only); non-trivial = distinct end state / observation trace")
 	c.Assume("unpredictability of run ids is crypto/rand's; only format and distinctness are checked")
 	b := drv.Pick(c, 2, 3)
 	runs := []struct {
 		s string
 		b int
-	}{{"dupname", b}, {"dupsecret-stcp", b}, {"dupsecret-sudp", b}, {"dupsecret-xtcp", b}, {"relogin1", b}, {"relogin1-busy", b - 1}, {"relogin2", b - 1}, {"relogin1-slowhook", b - 1}, {"takeover", b}, {"fresh", 1}}
+	}{{"dupname", b}, {"dupsecret-stcp", b}, {"dupsecret-sudp", b}, {"dupsecret-xtcp", b}, {"relogin1", b}, {"relogin1-busy", b - 1}, {"relogin2", b - 1}, {"relogin1-slowhook", b - 1}, {"takeover", b}, {"fresh", 1}, {"nearnames-trailing", 1}, {"nearnames-leading", 1}, {"nearnames-upper", 1}, {"nearnames-tab", 1}}
 	for i, r := range runs {
 		share := 1.0 / float64(len(runs)-i)
 		if share < 0.4 {
